@@ -50,6 +50,7 @@ class Check:
         self.analysed_functions = set()
         self.configs = []
         self.info = []
+        self.config = os.environ.get("VERIF_CONFIG") or "all"
 
     # ---- recording
     def ob(self, rule, key, ok, construct, witness, nontrivial=True):
@@ -67,8 +68,24 @@ class Check:
     def note(self, s):
         self.info.append(s)
 
-    def floor(self, rule_prefix, n):
-        self.floors[rule_prefix] = n
+    def floor(self, rule_prefix, n, default=None):
+        """hand-confirmed instance count of a rule family on the pinned tree (all-features build; `default` = the count
+        on the default-features build when it differs, e.g. without the tokio lock wrappers)"""
+        self.floors[rule_prefix] = default if (self.config == "default" and default is not None) else n
+
+    def absorb(self, other, tag):
+        """merge the obligations of a run of the same rules on another feature configuration (thorough tier)"""
+        for pref, n in other.floors.items():
+            have = sum(1 for o in other.obs if o.rule.startswith(pref))
+            if have < n:
+                other.ob(pref, "%s|below-floor" % pref, False, "rule instance count",
+                         "below-floor (%s build): %d obligations found, %d confirmed by hand" % (tag, have, n))
+        for o in other.obs:
+            o.rule = "%s: %s" % (tag, o.rule)
+            self.obs.append(o)
+        self.analysed_functions |= other.analysed_functions
+        self.configs = list(self.configs) + [c for c in other.configs if c not in self.configs]
+        self.info += ["%s: %s" % (tag, s) for s in other.info]
 
     def touched(self, body):
         if body is not None:
@@ -95,7 +112,11 @@ class Check:
                 else:
                     violations.append(o)
         os.makedirs(os.path.join(VERIF, "evidence", "replay"), exist_ok=True)
+        printed = set()
         for o in known:
+            if o.key in printed:
+                continue  # the same finding seen again on another feature configuration
+            printed.add(o.key)
             print("KNOWN-FINDING: property=%s %s [%s] %s" % (self.prop, o.known.get("what", ""), o.key, o.construct))
         lines = []
         for i, o in enumerate(violations):
